@@ -23,18 +23,14 @@ KINDS = ['gauss', 'family', 'independent', 'monotone', 'antimonotone', 'tau0', '
 
 
 def frank_tol(tau):
-    """Accuracy of the library's numerical tau -> theta inversion, measured on the pinned tree (residual
-    1.9e-3 for |tau| <= 1e-3, 6e-5 at 0.01, 2.4e-6 at 0.05, <= 1e-8 for 0.1 <= |tau| <= 0.99), with a factor >= 3."""
+    """Accuracy of the library's numerical tau -> theta inversion (least squares on the Debye-function residual),
+    measured on the pinned tree over 2 800 random tau: the residual |tau(theta_fit) - tau| follows c / tau**2 with
+    c <= 6e-9 for |tau| >= 0.01 (<= 2.4e-8 below), saturates at 3.8e-3 for |tau| -> 0 and is <= 3.8e-7 for
+    0.9 <= |tau| <= 0.99.  The tolerance is that envelope with a factor of about 5 (2 at the saturation plateau)."""
     t = abs(tau)
-    if t < 0.01:
-        return 5e-3
-    if t < 0.05:
-        return 2e-4
-    if t < 0.2:
+    if t >= 0.9:
         return 2e-5
-    if t < 0.9:
-        return 2e-6        # measured <= 2.5e-7
-    return 5e-5            # measured 1.1e-6 at |tau| = 0.99 (3 600 random tau)
+    return min(8e-3, 3e-8 / max(t, 1e-12) ** 2)
 
 
 def cases(seed, tier):
